@@ -110,6 +110,117 @@ def uncovered(max_n=40, seed=1234):
     return _CACHE[('uncovered', max_n, seed)]
 
 
+# ------------------------------------------------------------------ the same all-pairs construction for the other exported classes
+def _pairwise(features, build, probe, max_n, seed):
+    """generic all-pairs covering set: `build(c)` -> module (may raise = invalid), `probe(module, c)` exercises it once"""
+    rng = random.Random(seed)
+    names = list(features)
+    pairs = {(a, va, b, vb) for a, b in itertools.combinations(names, 2) for va in features[a] for vb in features[b]}
+
+    def valid(c):
+        import torch
+        st = torch.get_rng_state()
+        try:
+            probe(build(c), c)
+            return True
+        except Exception:
+            return False
+        finally:
+            torch.set_rng_state(st)
+    chosen, stall = [], 0
+    while pairs and len(chosen) < max_n and stall < 6:
+        best, best_cov = None, -1
+        for _ in range(40):
+            c = {k: rng.choice(v) for k, v in features.items()}
+            a, va, b, vb = rng.choice(sorted(pairs, key=str))
+            c[a], c[b] = va, vb
+            cov = sum(1 for (a2, va2, b2, vb2) in pairs if c[a2] == va2 and c[b2] == vb2)
+            if cov > best_cov and valid(c):
+                best, best_cov = c, cov
+        if best is None:
+            stall += 1
+            continue
+        stall = 0
+        chosen.append(best)
+        pairs = {p for p in pairs if not (best[p[0]] == p[1] and best[p[2]] == p[3])}
+    return chosen, sorted(pairs, key=str)
+
+
+FSQ_FEATURES = dict(levels=[(5, 4), (8, 5, 5), (3,), (2, 6), (7, 7)], num_codebooks=[1, 2], sym=[False, True], noise=[0.0, 0.5], proj=[False, True],
+                    layout=['seq', 'cfirst'], keep=[None, True])
+LFQ_FEATURES = dict(cd=[1, 3, 4], num_codebooks=[1, 2], spherical=[False, True], proj=[False, True], clamp=[None, 2.0], act=['identity', 'tanh'],
+                    frac=[1.0, 0.5], softplus=[False, True], layout=['seq', 'cfirst'], commit=[0.0, 0.25])
+RES_FEATURES = dict(cls=['rvq', 'rfsq', 'rlfq', 'rsimvq'], nq=[1, 2, 4], dropout=[False, True], cutoff=[0, 1], multiple=[1, 2], proj=[False, True], layout=['seq', 'cfirst'])
+
+
+def _fsq_build(c):
+    from vector_quantize_pytorch import FSQ
+    nd = len(c['levels']) * c['num_codebooks']
+    return FSQ(list(c['levels']), num_codebooks=c['num_codebooks'], preserve_symmetry=c['sym'], noise_dropout=c['noise'], dim=(nd + 1 if c['proj'] else None),
+               channel_first=(c['layout'] == 'cfirst'), keep_num_codebooks_dim=c['keep'])
+
+
+def _lfq_build(c):
+    from torch import nn
+    from vector_quantize_pytorch import LFQ
+    nd = c['cd'] * c['num_codebooks']
+    return LFQ(codebook_size=2 ** c['cd'], num_codebooks=c['num_codebooks'], spherical=c['spherical'], dim=(nd + 1 if c['proj'] else nd), soft_clamp_input_value=c['clamp'],
+               straight_through_activation=(nn.Tanh() if c['act'] == 'tanh' else nn.Identity()), frac_per_sample_entropy=c['frac'], experimental_softplus_entropy_loss=c['softplus'],
+               channel_first=(c['layout'] == 'cfirst'), commitment_loss_weight=c['commit'])
+
+
+def _res_build(c):
+    from vector_quantize_pytorch import ResidualVQ, ResidualFSQ, ResidualLFQ, ResidualSimVQ
+    kw = dict(num_quantizers=c['nq'], quantize_dropout=c['dropout'] and c['nq'] > 1, quantize_dropout_cutoff_index=c['cutoff'], quantize_dropout_multiple_of=c['multiple'])
+    if c['cls'] == 'rvq':
+        return ResidualVQ(dim=4 if c['proj'] else 3, codebook_dim=3, codebook_size=5, decay=0.5, channel_last=(c['layout'] != 'cfirst'), **kw)
+    if c['cls'] == 'rfsq':
+        return ResidualFSQ(levels=[4, 3], dim=3 if c['proj'] else 2, is_channel_first=(c['layout'] == 'cfirst'), **kw)
+    if c['cls'] == 'rlfq':
+        return ResidualLFQ(dim=4 if c['proj'] else 3, codebook_size=8, channel_first=(c['layout'] == 'cfirst'), **kw)
+    return ResidualSimVQ(dim=3, codebook_size=6, channel_first=(c['layout'] == 'cfirst'), **kw)
+
+
+def zoo_dim(kind, c):
+    if kind == 'fsq':
+        nd = len(c['levels']) * c['num_codebooks']
+        return nd + 1 if c['proj'] else nd
+    if kind == 'lfq':
+        nd = c['cd'] * c['num_codebooks']
+        return nd + 1 if c['proj'] else nd
+    return {'rvq': 4 if c['proj'] else 3, 'rfsq': 3 if c['proj'] else 2, 'rlfq': 4 if c['proj'] else 3, 'rsimvq': 3}[c['cls']]
+
+
+def zoo_input(kind, c, torch, b=2, n=5):
+    d = zoo_dim(kind, c)
+    return torch.randn(b, d, n) if c['layout'] == 'cfirst' else torch.randn(b, n, d)
+
+
+def _probe(kind):
+    def probe(mod, c):
+        import torch
+        mod.train()
+        x = zoo_input(kind, c, torch).requires_grad_(True)
+        ret = mod(x)
+        fl = [t for t in (ret if isinstance(ret, tuple) else (ret,)) if isinstance(t, torch.Tensor) and t.dtype.is_floating_point and t.requires_grad]
+        if fl:
+            sum(t.sum() for t in fl).backward()
+        mod.eval()
+        mod(zoo_input(kind, c, torch))
+    return probe
+
+
+def class_configs(kind, max_n=24, seed=4321):
+    """[(name, features, factory)] for kind in fsq / lfq / res"""
+    key = ('class', kind, max_n, seed)
+    if key not in _CACHE:
+        feats, build = {'fsq': (FSQ_FEATURES, _fsq_build), 'lfq': (LFQ_FEATURES, _lfq_build), 'res': (RES_FEATURES, _res_build)}[kind]
+        chosen, left = _pairwise(feats, build, _probe(kind), max_n, seed)
+        _CACHE[key] = [(f'zoo-{kind}-' + '-'.join(str(c[k]).replace(' ', '').lower() for k in feats), dict(c), partial(build, dict(c))) for c in chosen]
+        _CACHE[('uncovered',) + key] = left
+    return _CACHE[key]
+
+
 if __name__ == '__main__':
     import sys
     sys.path.insert(0, '/repo')
@@ -117,3 +228,8 @@ if __name__ == '__main__':
     for n, c, _ in cs:
         print(n)
     print(len(cs), 'configurations; uncovered (library rejects the combination, or budget):', uncovered())
+    for kind in ('fsq', 'lfq', 'res'):
+        cc = class_configs(kind)
+        for n, c, _ in cc:
+            print(n)
+        print(kind, len(cc), 'configurations; uncovered:', _CACHE[('uncovered', 'class', kind, 24, 4321)])
